@@ -48,6 +48,12 @@ space_imply = StreamFragment(' ', 0, 0, None, None)
 space_drop = StreamFragment(' ', None, None, None, None)
 
 
+def required_space_decimal_dot(before, after):
+    # a decimal integer literal followed by the property accessor dot
+    # would turn into a single numeric literal: `1 .x` -> `1.x`
+    return after == '.' and before.isdigit()
+
+
 def rule_handler_noop(*a, **kw):
     # a no op for layouts
     return
@@ -168,7 +174,8 @@ def layout_handler_space_optional_pretty(
         return
     s = before[-1:] + after[:1]
 
-    if required_space.match(s) or after in assignment_tokens:
+    if (required_space.match(s) or after in assignment_tokens or
+            required_space_decimal_dot(before, after)):
         yield space_imply
         return
 
@@ -178,7 +185,7 @@ def layout_handler_space_minimum(dispatcher, node, before, after, prev):
         # nothing.
         return
     s = before[-1:] + after[:1]
-    if required_space.match(s):
+    if required_space.match(s) or required_space_decimal_dot(before, after):
         yield space_imply
 
 
